@@ -1,5 +1,6 @@
 import ArimModel.TimeDomain
 import ArimProofs.Lemmas.TimeDomain
+import ArimProofs.Tie.C11
 import ArimProofs.C10
 import Mathlib.Tactic.Ring
 import Mathlib.Tactic.Positivity
@@ -875,4 +876,54 @@ example (x : ℕ → ℝ) (n j : ℕ) (hj : j < n) (dt : ℝ) (hdt : dt ≠ 0) (
     (by intro k h; simp only [freqGrid, List.getElem_map, List.getElem_range]) j hj]
   exact rfftToHilbert_real_part x (rfftR x n) n _ hjm (fun k hk => rfftR_spec x n k hk)
 end examples
+
+/-! ## On the source as translated on this run
+
+`Src.timeshift_window` and `Src.delay_remainder` (file `Generated/SrcC11.lean`) are the translations of the window
+arithmetic of the kernel `_timeshift_timedomain` and of the remainder formula of `transfer_func_to_timetraces`, made from
+`/repo/src` on every run; `Tie.C11` identifies both with the two halves of the model's `splitDelay`. -/
+section OnSource
+open Arim.Tie.C11
+
+/-- the routines of the translated code at `K = ℝ` -/
+noncomputable def srcOps : Src.Ops ℝ :=
+  { sin := Real.sin, cos := Real.cos, asin := Real.arcsin, sqrt := Real.sqrt, exp := Real.exp, sinc := id,
+    pi := Real.pi, ofNat := fun n => (n : ℝ), ofInt := fun z => (z : ℝ),
+    floor := fun x => ⌊x⌋, round := fun x => round x, trunc := fun x => ⌊x⌋ }
+
+theorem rt_srcOps : rt srcOps Int.ceil = tR := rfl
+
+/-- **the split of the source reconstructs the delay**: with `q` the whole-sample part the kernel uses (window start plus
+`t0_idx`) and `ρ` the remainder its caller shifts by, `delay = q·dt + ρ` and `0 ≤ ρ < dt` — for every delay and step -/
+theorem src_split_reconstructs (delays : ℕ → ℝ) (dt : ℝ) (hdt : 0 < dt) (t0 : ℤ) (n idx : ℕ) :
+    let q := (Src.timeshift_window srcOps delays dt t0 n idx).1 + t0
+    let ρ := Src.delay_remainder srcOps (delays idx) dt
+    delays idx = (q : ℝ) * dt + ρ ∧ 0 ≤ ρ ∧ ρ < dt := by
+  simp only [Src.timeshift_window, Src.delay_remainder, srcOps, Int.sub_add_cancel]
+  have h1 := Int.floor_le (delays idx / dt)
+  have h2 := Int.lt_floor_add_one (delays idx / dt)
+  rw [le_div_iff₀ hdt] at h1
+  rw [div_lt_iff₀ hdt] at h2
+  refine ⟨by ring, by linarith, by nlinarith⟩
+
+/-- the window of the kernel is as long as the response (so that NumPy's slice assignment is defined) -/
+theorem src_window_length (delays : ℕ → ℝ) (dt : ℝ) (t0 : ℤ) (n idx : ℕ) :
+    (Src.timeshift_window srcOps delays dt t0 n idx).2 - (Src.timeshift_window srcOps delays dt t0 n idx).1 = n := by
+  simp only [Src.timeshift_window]; omega
+
+/-- **a delay on a sample, on the source**: `delay = q·dt` opens the window at `q − t0_idx` and leaves no remainder, so
+(by `aligned_delay`) the time-zero sample of the response lands exactly on output sample `q` -/
+theorem src_aligned (q : ℤ) (dt : ℝ) (hdt : 0 < dt) (t0 : ℤ) (n idx : ℕ) (delays : ℕ → ℝ) (hd : delays idx = q * dt) :
+    Src.timeshift_window srcOps delays dt t0 n idx = (q - t0, q - t0 + n) ∧ Src.delay_remainder srcOps (delays idx) dt = 0 := by
+  rw [tie_timeshift_window srcOps Int.ceil, tie_delay_remainder srcOps Int.ceil, rt_srcOps, hd, aligned_exact q dt hdt]
+  exact ⟨rfl, rfl⟩
+
+/-- non-vacuity on rationals-as-reals: delay 3.75 samples of 0.5 → 7 whole samples, remainder 0.25 -/
+example : Src.delay_remainder srcOps (15/4) (1/2) = 1/4 := by
+  have h : ⌊(15/4 : ℝ) / (1/2)⌋ = 7 := by
+    rw [Int.floor_eq_iff]; constructor <;> norm_num
+  simp only [Src.delay_remainder, srcOps, h]; norm_num
+
+end OnSource
+
 end Arim.C11
